@@ -391,3 +391,59 @@ theorem drain_into (x : Ctx) : Gen.shared_recv_impl_drain_into x = Fine.drain x 
 
 end TieCode
 end Kanal
+
+#print axioms Kanal.TieCode.translation_complete
+#print axioms Kanal.TieCode.translated_functions
+#print axioms Kanal.TieCode.next_send_eq
+#print axioms Kanal.TieCode.next_recv_eq
+#print axioms Kanal.TieCode.push_send_eq
+#print axioms Kanal.TieCode.push_recv_eq
+#print axioms Kanal.TieCode.terminate_signals_eq
+#print axioms Kanal.TieCode.cancel_loop
+#print axioms Kanal.TieCode.cancel_send_eq
+#print axioms Kanal.TieCode.cancel_recv_eq
+#print axioms Kanal.TieCode.exists_loop
+#print axioms Kanal.TieCode.send_exists_eq
+#print axioms Kanal.TieCode.recv_exists_eq
+#print axioms Kanal.TieCode.drop_sender
+#print axioms Kanal.TieCode.drop_async_sender
+#print axioms Kanal.TieCode.drop_receiver
+#print axioms Kanal.TieCode.drop_async_receiver
+#print axioms Kanal.TieCode.clone_sender
+#print axioms Kanal.TieCode.clone_async_sender
+#print axioms Kanal.TieCode.sender_clone_async
+#print axioms Kanal.TieCode.async_sender_clone_sync
+#print axioms Kanal.TieCode.clone_receiver
+#print axioms Kanal.TieCode.clone_async_receiver
+#print axioms Kanal.TieCode.receiver_clone_async
+#print axioms Kanal.TieCode.async_receiver_clone_sync
+#print axioms Kanal.TieCode.is_bounded
+#print axioms Kanal.TieCode.len
+#print axioms Kanal.TieCode.is_empty
+#print axioms Kanal.TieCode.is_full
+#print axioms Kanal.TieCode.capacity
+#print axioms Kanal.TieCode.receiver_count
+#print axioms Kanal.TieCode.sender_count
+#print axioms Kanal.TieCode.is_closed
+#print axioms Kanal.TieCode.is_disconnected_send
+#print axioms Kanal.TieCode.is_disconnected_recv
+#print axioms Kanal.TieCode.is_terminated
+#print axioms Kanal.TieCode.close
+#print axioms Kanal.TieCode.try_send
+#print axioms Kanal.TieCode.try_send_option
+#print axioms Kanal.TieCode.try_send_realtime
+#print axioms Kanal.TieCode.try_send_option_realtime
+#print axioms Kanal.TieCode.send
+#print axioms Kanal.TieCode.send_timeout
+#print axioms Kanal.TieCode.send_option_timeout
+#print axioms Kanal.TieCode.try_recv
+#print axioms Kanal.TieCode.try_recv_realtime
+#print axioms Kanal.TieCode.recv
+#print axioms Kanal.TieCode.recv_timeout
+#print axioms Kanal.TieCode.drop_send_fut
+#print axioms Kanal.TieCode.drop_recv_fut
+#print axioms Kanal.TieCode.poll_send
+#print axioms Kanal.TieCode.poll_recv
+#print axioms Kanal.TieCode.drain_queue_loop
+#print axioms Kanal.TieCode.drain_senders_loop
+#print axioms Kanal.TieCode.drain_into
